@@ -76,7 +76,7 @@ def run(res):
     from props.theorems import THEOREMS
     prove_obligations(res, THEOREMS.get("C08", []))
     files, bad = compressed_files(rng, 300 if thorough else 60, max_n=80)
-    sparse, _ = compressed_files(rng, 40 if thorough else 8, max_n=1200, shapes=["sparse", "rl_wide"], orders=[0, 1], levels=[3, 8])
+    sparse, _ = compressed_files(rng, 40 if thorough else 8, max_n=1200, shapes=["sparse", "rl_wide", "zipf"], orders=[0, 1], levels=[3, 8])
     gfiles = grammar_files(rng, 120 if thorough else 25)
     pool = files + sparse + gfiles
     nh = 60000 if thorough else 3000
